@@ -33,6 +33,7 @@ impl ReceiveWindow {
 pub struct FrameAckQueue {
     entries: std::collections::VecDeque<frame::AckGroup>,
     receive_window: ReceiveWindow,
+    max_entries: usize,
 }
 
 impl FrameAckQueue {
@@ -40,6 +41,9 @@ impl FrameAckQueue {
         Self {
             entries: std::collections::VecDeque::new(),
             receive_window: ReceiveWindow::new(base_id, size),
+            // The sender keeps records for at most two windows worth of frames, so older
+            // acknowledgement groups than that cannot be matched anyway
+            max_entries: 2 * size as usize,
         }
     }
 
@@ -79,6 +83,12 @@ impl FrameAckQueue {
                     bitfield: 0x00000001,
                     nonce: nonce,
                 });
+            }
+
+            // Bound the queue: if acknowledgements cannot be sent as fast as frames arrive (no
+            // send credit, or a peer spacing its frame IDs apart), forget the oldest groups
+            while self.entries.len() > self.max_entries {
+                self.entries.pop_front();
             }
         }
     }
